@@ -9,7 +9,7 @@ from ..core import Checker, Rule, attr_calls, callee_is, calls_in, kwarg, resolv
 from ..grammar import schema
 from ..interp import Pins, find_nodes, unparse
 from ..kindflow import Collect, fmt_path, required_paths
-from .util import enclosing_loop, enclosing_stmt, every_iteration_reaches, fmt, is_const, parent, returns_of, single_def
+from .util import covers_program, enclosing_loop, enclosing_stmt, every_iteration_reaches, fmt, is_const, parent, returns_of, single_def
 
 P = ("C18", "C01")
 U = "ngo.utils.ast"
@@ -44,8 +44,20 @@ def r_predicates_cover(ck: Checker) -> None:
     symk = set()
     for p, s, sk in res:
         symk |= set(sk.split(","))
+    # pools: either the collectors handle them, or whoever runs the collectors on a program as parsed unpools first
+    raw_users = ("utils.globals:auto_detect_input", "utils.globals:auto_detect_output")
+    unpooled = {}
+    for name in raw_users:
+        f = ck.func(name)
+        loops = [x for x in find_nodes(f.node, lambda x: isinstance(x, ast.For)) if enclosing_loop(f, x) is None and unparse(x.iter).find(f.params()[0]) >= 0]
+        ck.need(len(loops) >= 1, f"{name} loops over the program")
+        unpooled[name] = all(re.search(r"\.unpool\(", unparse(x.iter)) is not None for x in loops)
+        if "Pool" not in symk:
+            ck.add(f"{f.name}: pooled atoms are unpooled before the collectors run", unpooled[name], f, loops[0], f"statement loop iterates `{short(unparse(loops[0].iter), 90)}`",
+                   "the collectors skip atoms whose symbol is a pool: `p(1;2). q :- p(X).` reports the defined p/1 as an input predicate", rule="C18.symbol-kinds")
     for kind, example in (("Function", "p(X)"), ("Pool", "p(1;2)  (a pooled atom, present when auto-detection runs on the parsed, not yet unpooled program)"), ("UnaryOperation", "-a(X)  (classical negation)")):
-        ck.add(f"symbolic atoms whose symbol is a {kind} are collected", kind in symk, lp, lp.node, f"literal_predicate yields for symbol kinds {sorted(symk)}; `{example}`",
+        ok = kind in symk or (kind == "Pool" and all(unpooled.values()))
+        ck.add(f"symbolic atoms whose symbol is a {kind} are collected", ok, lp, lp.node, f"literal_predicate yields for symbol kinds {sorted(symk)}" + ("; programs as parsed are unpooled first" if kind == "Pool" and ok and kind not in symk else "") + f"; `{example}`",
                "a defined-but-pooled predicate `p(1;2).` is reported as input; an open `-a/1` is not reported", rule="C18.symbol-kinds")
 
 
@@ -94,7 +106,7 @@ def r_detect_input(ck: Checker) -> None:
     stm = m.group(2) if m else "stm"
     okk, n = every_iteration_reaches(ck, func, enclosing_loop(func, allp[0]), allp[0], None)  # type: ignore[arg-type]
     lp = enclosing_loop(func, allp[0])
-    ck.add("... over the whole program", okk and n > 0 and lp is not None and unparse(lp.iter) == f"enumerate({prg})", func, allp[0], f"loop `{unparse(lp.iter) if lp is not None else None}` unconditional: {okk}", "")
+    ck.add("... over the whole program", okk and n > 0 and lp is not None and covers_program(lp.iter, prg), func, allp[0], f"loop `{unparse(lp.iter) if lp is not None else None}` unconditional: {okk}", "")
     der = [c for c in attr_calls(func, "add") if unparse(c.func.value) == "derivable_preds"]  # type: ignore[attr-defined]
     ck.need(len(der) == 1, "derivable predicates collected at one site")
     org = {st.origin.get(unparse(der[0].args[0]).split(".")[0], "") for st in it.states(der[0])}
@@ -108,6 +120,11 @@ def r_detect_input(ck: Checker) -> None:
     ck.add("in_head = statements deriving the predicate", orgh == {f"headderivable_predicates({stm})[*]"}, func, inh[0], f"iterates {sorted(orgh)}", "")
     idx = {unparse(c.args[0]) for c in inb + inh}
     ck.add("both indexes record the statement index", len(idx) == 1, func, inb[0], f"recorded {sorted(idx)}", "")
+    key = next(iter(idx))
+    src = {st.origin.get(key, "") or it.text(ast.Name(key, ast.Load()), st) for st in it.states(inb[0])} | {st.origin.get(key, "") or it.text(ast.Name(key, ast.Load()), st) for st in it.states(inh[0])}
+    ok = lp is not None and isinstance(lp.iter, ast.Call) and unparse(lp.iter.func) == "enumerate" and src == {f"{unparse(lp.iter)}[*][0]"}
+    ck.add("the recorded index identifies one statement (position in the program)", ok, func, inb[0], f"`{key}` is {sorted(src)}",
+           "with anything coarser (the source line, the location) two statements share an index: a predicate defined on the same line as a rule using it looks self-supporting and is reported as input")
     base = [n for n in find_nodes(func.node, lambda n: isinstance(n, ast.Assign)) if unparse(n.targets[0]) == "input_"]  # type: ignore[attr-defined]
     ck.need(len(base) == 1, "result list initialised once")
     ck.add("result starts with sorted(all - derivable)", unparse(base[0].value).replace(" ", "") in ("list(sorted(all_preds-derivable_preds))", "sorted(all_preds-derivable_preds)"), func, base[0], f"`{fmt(base[0])}`",  # type: ignore[attr-defined]
@@ -124,7 +141,7 @@ def r_detect_output(ck: Checker) -> None:
     col = _col(ck)
     func = ck.func("utils.globals:auto_detect_output")
     stm = None
-    loops = [n for n in find_nodes(func.node, lambda n: isinstance(n, ast.For)) if unparse(n.iter) == func.params()[0]]  # type: ignore[attr-defined]
+    loops = [n for n in find_nodes(func.node, lambda n: isinstance(n, ast.For)) if covers_program(n.iter, func.params()[0])]  # type: ignore[attr-defined]
     ck.need(len(loops) == 1, "auto_detect_output loops over the program")
     stm = unparse(loops[0].target)  # type: ignore[attr-defined]
     it_sig = ck.interp(func, Pins.of(vals={f"{stm}.ast_type": "ASTType.ShowSignature"}))
